@@ -386,13 +386,21 @@ Record auth_out := mkAuth {
   a_res : result; a_first : list event; a_second : list event; a_third : list event; a_time : Z
 }.
 
+(* the statuses the code compares with are read from the sources (Generated.GC17.*_status_cmps:
+   the StatusCode comparisons of each function, in source order) *)
+Definition cmp_status (l : list (Z * Z)) (i : nat) : Z := snd (nth i l (0, -1)).
+Definition challenge_status : Z := cmp_status auth_do_status_cmps 0.      (* Do: first answer *)
+Definition challenge_status_2 : Z := cmp_status auth_do_status_cmps 1.    (* Do: answer to the cached token *)
+Definition token_ok_status : Z := cmp_status fetch_distribution_status_cmps 0.
+Definition accepted_status : Z := cmp_status blob_push_status_cmps 0.
+
 (* a 401 answer carrying a Basic or Bearer challenge *)
 Definition challenged (r : result) : bool :=
-  match r with RResp c ch => (c =? 401) && recognised ch | _ => false end.
+  match r with RResp c ch => (c =? challenge_status) && recognised ch | _ => false end.
 Definition bearer_challenged (r : result) : bool :=
-  match r with RResp c ch => (c =? 401) && (ch =? 2)%N | _ => false end.
+  match r with RResp c ch => (c =? challenge_status) && (ch =? 2)%N | _ => false end.
 Definition unauthorized (r : result) : bool :=
-  match r with RResp c _ => c =? 401 | _ => false end.
+  match r with RResp c _ => c =? challenge_status_2 | _ => false end.
 
 Definition rewind_error (rw : rewind_result) : result :=
   match rw with RwGetBodyErr => RGetBodyFailed | _ => RNotRewindable end.
@@ -438,7 +446,7 @@ Record tok_out := mkTok {
   k_ok : bool; k_res : result; k_trace : list event; k_time : Z; k_script : list beh
 }.
 
-Definition token_ok (r : result) : bool := match r with RResp c _ => c =? 200 | _ => false end.
+Definition token_ok (r : result) : bool := match r with RResp c _ => c =? token_ok_status | _ => false end.
 Definition token_error (r : result) : result :=
   match r with RResp c _ => RTokenResp c | _ => r end.
 
@@ -480,7 +488,7 @@ Record push_out := mkPush { u_res : result; u_post : auth_out; u_put : option au
 
 Definition no_body : body := mkBody KNone [].
 
-Definition accepted (r : result) : bool := match r with RResp c _ => c =? 202 | _ => false end.
+Definition accepted (r : result) : bool := match r with RResp c _ => c =? accepted_status | _ => false end.
 
 (* [warm0]: the token cache already holds a token for the push's own scope key, so the POST
    carries Authorization from its first send (the normal state within a push session) *)
